@@ -319,11 +319,15 @@ func c17Body(rc *RunCtx) {
 		var plan []step
 		for i := 0; i < k; i++ {
 			id := ""
-			switch simrt.Choose(4) {
+			switch simrt.Choose(5) {
 			case 0:
 				id = "REPEAT0001"
 			case 1:
 				id = "REPEAT0002"
+			case 4:
+				// multi-byte text: the tenth byte of the implicit id falls inside a character, and
+				// the two variants differ only in that character
+				id = []string{"서버연결 A", "서버연동 A"}[simrt.Choose(2)]
 			default:
 				id = fmt.Sprintf("U%09d", simrt.Choose(1000000))
 			}
@@ -352,6 +356,9 @@ func c17Body(rc *RunCtx) {
 				n++
 				c := &c17Call{N: n, Task: tid, Method: st.method, ID: st.id, Token: fmt.Sprintf("tok-%06d", n)}
 				msg := st.id + " " + c.Token
+				if len(c.ID) > 10 && st.method != "Println" && st.method != "Printf" {
+					c.ID = c.ID[:10] // the implicit repeat id is the first ten bytes of the message
+				}
 				d.addCall(c)
 				simrt.SetOp(n)
 				c.CallMs, c.CallNs = dateutil.Now(), simrt.Elapsed()
